@@ -13,6 +13,13 @@
 //!       `Thick.styledBoundingBox`. Oracle `C02:line-bbox-contains-pixels` (counts for C02 only):
 //!       every pixel of `pixels()` lies inside that box.
 //!
+//! Both streams are also generated as a SMALL SLICE (`generate_line_slice`, ~230 lines per stream) for the checks of
+//! C01, C02 and C07, whose theorems speak about the single stroked line (Props/C01/Line.lean ties to `thick.points` /
+//! `thick-draw-eq-pixels`; C02 to `C02:line-bbox-contains-pixels`; C07 to the moved line): under C07 every line is
+//! followed by the same line with moved end points and the oracles `C07:thick-line-translate` (pixel sequence and
+//! picture of `translate` / `translate_mut` on the primitive and on the styled line = the shifted sequence) and
+//! `C07:thick-line-bbox-translate` (the box moves along; an empty box stays empty) run on each op.
+//!
 //! Lean statements mirrored: `thick_width1_eq_points` (C17:thick-width1), `thick_contains_thin`
 //! (C17:thick-contains-thin; proved in the stronger form "the pixel sequence starts with points()");
 //! mirrored Lean statements (lean/EG/Props/C17/Stroke.lean): `thick_no_pixel_twice` (C17:thick-duplicate),
@@ -364,6 +371,9 @@ impl Module for M {
          The counters polyline:join:*, triangle:join:*, polyline:skeleton-segments, triangle:collapsed-inside report the join kinds \
          exercised (computed by a port of the private join code and compared with the Lean model's classification in the result line). \
          Non-trivial: at least one pixel drawn (C07: and a non-zero offset). \
+         C01 / C02 / C07 additionally: the single stroked line (thick.points + thick.bbox) on a 5x5 lattice of (dx,dy) x widths \
+         0,1,2,3,5,8, the 18 fixed wide strokes of C17, seeded random lines up to +-300 (widths <= 40) and wide strokes 13..=128 \
+         (quick 228 lines, thorough 768; C07: each followed by the same line moved by one of 4 offsets). \
          C01 (when the check of C01 runs this module): a small slice of the same two streams for the three drawing paths - every \
          segment of the 5x5 lattice x widths 0..=5 (thorough 6x6 x 0,1,2,3,4,5,7,9), every triple of a 4x3 sub-lattice (thorough 5x4) \
          with widths rotating, 600 (6000) sampled 4/5-vertex polylines, the skeleton shapes, ALL triangles of the 4x4 (5x5) lattice x 3 \
@@ -572,6 +582,9 @@ impl Module for M {
 //          draw: `-` (no call) | `di:<points digest>` (one draw_iter call) |
 //                `fs:<digest of the fill_solid rectangles as the point list tl,(w,h),tl,(w,h),..>`
 //          px:   points digest of `pixels()` in emission order (format of `m_line::pts_digest`)
+//          g:    `*` here; the model driver prints one character per guard of the join theorems (1 holds, 0 fails, - not
+//                applicable; order: lean/EG/Driver/Thick.lean `polyGuardBits` / `triGuardBits`). Not compared (check.py
+//                strips the token); tallied into the evidence as coverage.guard_bits. Both streams end with it.
 //
 //   thick.triangle dx dy x1 y1 x2 y2 x3 y3 w align fill stroke
 //       `Triangle::new(v1, v2, v3).translate((dx,dy)).into_styled(style)`, style = stroke width w, alignment
@@ -1183,7 +1196,9 @@ fn exec_polyline(t: &mut Toks, op: &str, ctx: &mut Ctx) -> String {
             ctx.count_n("polyline:segments", (n - 1) as u64);
         }
     }
-    format!("bb={} k={} s={} draw={} px={}", fmt_rect(&bb), kinds, skeletons, fmt_draw_log(&r2.rec.log), pts_digest(&px))
+    // ` g=*`: place of the model driver's guard bits (which guards of the join theorems hold on this op; the real code has
+    // no such notion). tools/check.py strips the ` g=` token from both sides before comparing and tallies the driver's bits.
+    format!("bb={} k={} s={} draw={} px={} g=*", fmt_rect(&bb), kinds, skeletons, fmt_draw_log(&r2.rec.log), pts_digest(&px))
 }
 
 fn kind_name(c: char) -> &'static str {
@@ -1808,5 +1823,5 @@ fn exec_triangle(t: &mut Toks, op: &str, ctx: &mut Ctx) -> String {
             ctx.count(if align == 0 { "triangle:collapsed-inside" } else { "triangle:is_collapsed-other-alignment" });
         }
     }
-    format!("bb={} k={} c={} draw={} px={}", fmt_rect(&bb), kinds, collapsed as u8, draw, pts_digest(&pp))
+    format!("bb={} k={} c={} draw={} px={} g=*", fmt_rect(&bb), kinds, collapsed as u8, draw, pts_digest(&pp))
 }
